@@ -760,7 +760,27 @@ class Parser:
                 else:
                     self.next()
             else:
-                raise Unsupported("item starting with %r" % (self.peek()[1],))
+                # an item outside the subset (thread_local!, macro invocations, unions, ...): skip it
+                depth = 0
+                progressed = False
+                while self.peek()[0] != "eof":
+                    t = self.next()
+                    progressed = True
+                    if t[0] == "op" and t[1] in "([{":
+                        depth += 1
+                    elif t[0] == "op" and t[1] in ")]}":
+                        depth -= 1
+                        if depth == 0 and t[1] == "}":
+                            if self.at(";"):
+                                self.next()
+                            break
+                        if depth < 0:
+                            self.i -= 1
+                            break
+                    elif t[1] == ";" and depth == 0:
+                        break
+                if not progressed:
+                    raise Unsupported("item starting with %r" % (self.peek()[1],))
         return out
 
     def _skip_braces(self):
